@@ -30,7 +30,7 @@ SPACES = {
         (dict(nv=3, maxl=2, classes=("D", "U", "O"), mutations=True), "FULL"),
     ],
 }
-CFG = {"FULL": trav.FULL, "REDUCED": trav.REDUCED, "LEAN": trav.LEAN, "FAMILY": trav.FAMILY}
+CFG = {"FULL": trav.FULL, "REDUCED": trav.REDUCED, "LEAN": trav.LEAN, "FAMILY": trav.FAMILY, "FALSY": trav.FALSY}
 # deterministic shapes at a ladder of sizes
 SPACES["quick"] += [(sp, "FAMILY") for sp in engine_g.family_specs(list(range(4, 13)) + [16, 17])]
 SPACES["thorough"] += [(sp, "FAMILY") for sp in engine_g.family_specs(list(range(4, 13)) + [16, 17, 32, 33])]
@@ -50,15 +50,36 @@ def per_state(spec, seq, w):
         ev2, nt2, viols2 = trav.edit_leg(spec, seq, w, CFG[_cfgname])
         ev, nt, viols = ev + ev2, nt + nt2, viols + viols2
     sq = [list(o) for o in seq]
-    return ev, nt, [(fp, {"seq": sq, "space": _plain(spec), "cfg": _cfgname, "case": case})
-                    for fp, case in viols], None
+    out = [(fp, {"seq": sq, "space": _plain(spec), "cfg": _cfgname, "case": case}) for fp, case in viols]
+    if _cfgname == "FULL":
+        # the same evaluation with vertices whose truth value is False (a container-like vertex subclass):
+        # a traversal must treat them like any other vertex
+        spec_f = dict(spec, vclasses=["FalsyLen"] * spec["nv"])
+        w_f, _ = engine_g.build(_with_classes(spec_f), seq, validate=False)
+        wb_f = engine_g.build(_with_classes(spec_f), seq, validate=False)[0] if MODE == "C07" else None
+        ev2, nt2, viols2 = trav.evaluate(spec, seq, w_f, trav.FALSY, MODE, wb_f)
+        ev, nt = ev + ev2, nt + nt2
+        out += [(fp + "|vertexclass=falsy", {"seq": sq, "space": _plain(spec), "cfg": "FALSY", "case": case,
+                                               "vclasses": "FalsyLen"}) for fp, case in viols2]
+    return ev, nt, out, None
+
+
+def _with_classes(spec):
+    from ..fixtures_mod import FalsyLenVertex
+    if spec.get("vclasses") and isinstance(spec["vclasses"][0], str):
+        return dict(spec, vclasses=[FalsyLenVertex] * spec["nv"])
+    return spec
 
 
 def replay(rec, verbose=False, mode=None):
     mode = mode or MODE
     spec = rec["space"]
     seq = [tuple(o) for o in rec["seq"]]
-    w, ok = engine_g.build(spec, seq)
+    if rec.get("vclasses"):
+        spec = _with_classes(dict(spec, vclasses=[rec["vclasses"]] * spec["nv"]))
+        w, ok = engine_g.build(spec, seq, validate=False)
+    else:
+        w, ok = engine_g.build(spec, seq)
     w_b = engine_g.build(spec, seq, validate=False)[0] if mode == "C07" else None
     if rec["case"][0] == "edit":
         ev, nt, viols = trav.edit_leg(spec, seq, w, dict(CFG[rec["cfg"]], dirs=(rec["case"][2],)))
